@@ -94,6 +94,11 @@ C17_GRAPHS = {
     "ring4": (tuple("AABA"), ((0, 1), (1, 2), (2, 3), (3, 0))),
     "ring5": (tuple("ABAAB"), ((0, 1), (1, 2), (2, 3), (3, 4), (4, 0))),
 }
+# graphs that only the every-subset-pre-positioned family uses
+C17_MORE_GRAPHS = {
+    "path7": _path(7, "AABABAA"),
+    "path8": _path(8, "AABABBAA"),
+}
 C17_BOX = 40.0
 
 
@@ -101,7 +106,7 @@ def c17_top_text(moltypes, counts):
     """a GROMACS topology with one bead per residue; bonds = residue graph"""
     lines = ["[ defaults ]", "1 1 no 1.0 1.0", "", "[ atomtypes ]", "P 72.0 0.0 A 0.47 3.5", ""]
     for name, gname in moltypes:
-        resnames, edges = C17_GRAPHS[gname]
+        resnames, edges = C17_GRAPHS[gname] if gname in C17_GRAPHS else C17_MORE_GRAPHS[gname]
         lines += ["[ moleculetype ]", f"{name} 1", "", "[ atoms ]"]
         for i, rn in enumerate(resnames):
             lines.append(f"{i + 1} P {i + 1} {rn} B {i + 1} 0.0 72.0")
@@ -404,18 +409,20 @@ def c17_install(rw, bs):
 def c17_world(job):
     """worker.  job = dict(kind, moltypes, counts, supplied, skip_res, nrewind, schedule, plans, bs_maxiter, start, dir, id)
     returns (nontrivial, stats, (key, text) or None)"""
-    top_mod = load("polyply.src.topology")
-    bs = load("polyply.src.build_system")
-    rw = load("polyply.src.random_walk")
-    nbe = load("polyply.src.nonbond_engine")
-    mm = load("polyply.src.meta_molecule")
+    if "mods" not in _C17:      # once per worker process (the tree under verification is fixed for the run)
+        _C17["mods"] = tuple(load(f"polyply.src.{m}") for m in ("topology", "build_system", "random_walk", "nonbond_engine"))
+    top_mod, bs, rw, nbe = _C17["mods"]
     c17_install(rw, bs)
     np.random.seed(_seed_of("c17", job["id"], job["seed"]))
     d = job["dir"]
     tag = f"w{os.getpid()}"
     stats = {"rewinds": 0, "abandoned": 0, "attempts": 0, "steps": 0}
     try:
-        top_path = _write(os.path.join(d, f"{tag}.top"), c17_top_text(job["moltypes"], job["counts"]))
+        text = c17_top_text(job["moltypes"], job["counts"])
+        top_path = os.path.join(d, f"{tag}.top")
+        if _C17.get("top_text") != (top_path, text):        # consecutive worlds mostly share the topology file
+            _write(top_path, text)
+            _C17["top_text"] = (top_path, text)
         top = top_mod.Topology.from_gmx_topfile(top_path, "bounded")
         top.preprocess()
         molecules = top.molecules
@@ -432,6 +439,14 @@ def c17_world(job):
                         continue
                     supplied[(m, n)] = pts[i]
                     i += 1
+        for k, (m, n) in enumerate(job.get("supplied_set", ())):
+            # an arbitrary subset of residues comes with coordinates: marked the way the coordinate reader marks
+            # residue-level coordinates (Topology.add_positions_from_file, resolution meta_mol)
+            point = c17_supplied_point(job["n_supplied"] + k)
+            molecules[m].nodes[n]["position"] = point.copy()
+            molecules[m].nodes[n]["build"] = False
+            molecules[m].nodes[n]["backmap"] = True
+            supplied[(m, n)] = point
         for m, mol in enumerate(molecules):
             for n in mol.nodes:
                 has = "position" in mol.nodes[n]
@@ -512,7 +527,7 @@ def c17_jobs(ctx, d):
     jobs = []
 
     def add(**kw):
-        base = dict(kind="system", moltypes=(("M", "path3"),), counts=(("M", 1),), n_supplied=0, skip_res=(), nrewind=5,
+        base = dict(kind="system", moltypes=(("M", "path3"),), counts=(("M", 1),), n_supplied=0, skip_res=(), supplied_set=(), nrewind=5,
                     schedule=(), plans=(), bs_maxiter=800, start=(), dir=d, seed=ctx.seed)
         base.update(kw)
         base["id"] = len(jobs)
@@ -538,6 +553,47 @@ def c17_jobs(ctx, d):
                 for nre in nrewinds:
                     for s in scheds:
                         add(moltypes=(("M", gname),), counts=(("M", 1),), nrewind=nre, schedule=s, start=st, **var)
+    # (1b) EVERY subset of residues pre-positioned (a supplied residue may sit anywhere, in particular inside the window a rewind
+    #      goes back over): all proper non-empty subsets x nrewind (2,3,4) x every schedule, paths 3-6 and both T-branches;
+    #      beyond that a seeded sample (path7: every subset, path8: sampled subsets; longer schedules)
+    import random as pyrandom
+    rng = pyrandom.Random(_seed_of("c17-subsets", ctx.seed))
+    sub_scheds = c17_schedules(6 if not ctx.thorough else 7)
+    n_subset_worlds = 0
+    for gname in ("path3", "path4", "path5", "path6", "tbranch5", "tbranch6"):
+        n = len(C17_GRAPHS[gname][0])
+        for r in range(1, n):
+            for subset in itertools.combinations(range(n), r):
+                for nre in (2, 3, 4):
+                    for s in sub_scheds:
+                        add(moltypes=(("M", gname),), counts=(("M", 1),), nrewind=nre, schedule=s, supplied_set=tuple((0, x) for x in subset))
+                        n_subset_worlds += 1
+
+    def random_schedule(lo, hi):
+        L = rng.randint(lo, hi)
+        return tuple(rng.random() < 0.7 for _ in range(L - 1)) + (False,)
+    n7 = 24 if not ctx.thorough else 96
+    for r in range(1, 7):
+        for subset in itertools.combinations(range(7), r):
+            for nre in (2, 3, 4, 5):
+                for _ in range(n7 // 4):
+                    add(moltypes=(("M", "path7"),), counts=(("M", 1),), nrewind=nre, schedule=random_schedule(3, 9), supplied_set=tuple((0, x) for x in subset))
+                    n_subset_worlds += 1
+    for _ in range(1500 if not ctx.thorough else 6000):
+        subset = tuple(x for x in range(8) if rng.random() < 0.3)
+        if not subset or len(subset) == 8:
+            continue
+        add(moltypes=(("M", "path8"),), counts=(("M", 1),), nrewind=rng.choice((2, 3, 4, 5, 6)), schedule=random_schedule(4, 10),
+            supplied_set=tuple((0, x) for x in subset))
+        n_subset_worlds += 1
+    # two molecules, supplied residues in the middle of the second, abandoned attempts on top
+    for subset in ((1,), (2,), (1, 3), (0, 2), (3,)):
+        for nre in (2, 3, 4):
+            for s in c17_schedules(4):
+                for p1 in ((), (1,), (2, 0)):
+                    add(moltypes=(("M", "path5"),), counts=(("M", 2),), nrewind=nre, schedule=s, plans=((1, p1),), bs_maxiter=1,
+                        supplied_set=tuple((1, x) for x in subset))
+                    n_subset_worlds += 1
     # (2) the walk driven directly (engine from the constructor), shorter schedules
     for gname in ("path4", "tbranch5", "ring4"):
         for nre in nrewinds:
@@ -579,13 +635,13 @@ def c17_jobs(ctx, d):
                     for bsmax in (0, 800):
                         add(moltypes=(("M", "path3"), ("N", "star4")), counts=(("M", 1), ("N", 1), ("M", 1)), nrewind=nre,
                             plans=((0, p0), (1, p1), (2, p2)), bs_maxiter=bsmax)
-    return jobs, maxlen, max_abandon, len(scheds)
+    return jobs, maxlen, max_abandon, len(scheds), n_subset_worlds
 
 
 def run_c17(ctx, res):
     d = _scratch()
     try:
-        jobs, maxlen, max_abandon, nsched = c17_jobs(ctx, d)
+        jobs, maxlen, max_abandon, nsched, n_subset_worlds = c17_jobs(ctx, d)
         out = _pool_map(c17_world, jobs, chunksize=16)
     finally:
         shutil.rmtree(d, ignore_errors=True)
@@ -595,7 +651,7 @@ def run_c17(ctx, res):
         res.nontrivial += int(bool(nt))
         for k in tot:
             tot[k] += stats[k]
-        desc = {k: job[k] for k in ("kind", "moltypes", "counts", "n_supplied", "skip_res", "nrewind", "schedule", "plans", "bs_maxiter", "start")}
+        desc = {k: job[k] for k in ("kind", "moltypes", "counts", "n_supplied", "skip_res", "supplied_set", "nrewind", "schedule", "plans", "bs_maxiter", "start")}
         if nt and not bad and len(res.samples) < 3 and stats["rewinds"] and (stats["abandoned"] or len(res.samples) < 2):
             res.samples.append(dict(desc, observed=stats))
         if bad and len(res.violations) < 25 and bad[0] not in {v.finding_key for v in res.violations}:
@@ -604,7 +660,10 @@ def run_c17(ctx, res):
     res.bound = (f"EXHAUSTIVE: every success/failure schedule of the single placement step of length <= {maxlen} (padded with successes: {nsched} distinct) "
                  f"x nrewind in (1,2,3,5) x {len(C17_GRAPHS)} residue graphs (paths 2-6, two stars, two T-branches, rings of 4 and 5 opened by the search tree; "
                  "start residue default or in the middle) x pre-positioned residues (none, first residue, first half, all A / all B via the real "
-                 "coordinate reader with -res) through the REAL BuildSystem + NonBondEngine.from_topology; the same on RandomWalk driven directly on a "
+                 "coordinate reader with -res) through the REAL BuildSystem + NonBondEngine.from_topology; EVERY proper non-empty SUBSET of residues pre-positioned "
+                 f"(marked as the coordinate reader marks them, engine from from_topology) x nrewind in (2,3,4) x every schedule of length <= {6 if not ctx.thorough else 7} on paths 3-6 and both T-branches, "
+                 "plus SEEDED (not exhaustive): every subset of a path of 7 x nrewind 2-5 x random schedules of length 3-9, random subsets of a path of 8 x nrewind 2-6 x random schedules of "
+                 f"length 4-10, two molecules with supplied residues inside the second and abandoned attempts ({n_subset_worlds} subset worlds); the same on RandomWalk driven directly on a "
                  f"constructor-made engine (3 graphs, schedules <= {4 if not ctx.thorough else 6}); 2 and 3 molecules with every plan of <= {max_abandon} scripted abandoned attempts per molecule "
                  "(attempt fails from its f-th step on, f in 0..2) x nrewind x attempt limit in (0,1,800) so that both give-up branches run, "
                  f"with and without supplied residues.  {len(jobs)} worlds, {tot['steps']} scripted steps, {tot['rewinds']} rewinds, {tot['abandoned']} abandoned attempts observed")
